@@ -16,7 +16,12 @@ VERIF = os.path.dirname(os.path.abspath(__file__))
 REPO = os.environ.get("VERIF_REPO", "/repo")
 GOSYM = os.path.join(VERIF, "bin", "gosym")
 GOENV = dict(os.environ, GOFLAGS="-mod=readonly", GOPROXY="off", GOTOOLCHAIN="local",
-             PATH="/opt/veriftools/go1.26.8/bin:" + os.environ.get("PATH", ""))
+             PATH="/opt/veriftools/go1.26.8/bin:" + os.environ.get("PATH", "") + ":/usr/local/bin:/usr/bin:/bin")
+# do not depend on how the caller's environment locates the module cache (HOME / GOPATH may be unset)
+if os.path.isdir("/root/go/pkg/mod"):
+    GOENV.setdefault("HOME", "/root")
+    GOENV.setdefault("GOPATH", "/root/go")
+    GOENV.setdefault("GOMODCACHE", "/root/go/pkg/mod")
 
 
 def load_checks():
